@@ -16,7 +16,8 @@ SPEC = {
             "samply/src/shared/unresolved_samples.rs",
             "samply/src/linux_shared/converter.rs::handle_main_event_sample,handle_fork,handle_exit,handle_comm,handle_exec,handle_thread_rename,handle_context_switch,finish",
             "samply/src/linux_shared/process.rs::notify_dead,finish,recycle_or_get_new_thread",
-            "samply/src/shared/process_sample_data.rs::flush_samples_to_profile", "samply/src/linux_shared/converter.rs::get_sample_stack"],
+            "samply/src/shared/process_sample_data.rs::flush_samples_to_profile", "samply/src/linux_shared/converter.rs::get_sample_stack",
+            "samply/src/shared/recycling.rs", "samply/src/linux_shared/process.rs::new,rename_with_recycling,rename_without_recycling"],
     "C17": ["samply/src/linux_shared/processes.rs", "samply/src/linux_shared/process_threads.rs", "samply/src/linux_shared/thread.rs",
             "samply/src/linux_shared/converter.rs::handle_fork,handle_exit,handle_comm,handle_exec,handle_thread_rename",
             "samply/src/linux_shared/process.rs::notify_dead,finish,rename_without_recycling,recycle_or_get_new_thread"],
